@@ -100,7 +100,7 @@ LeafCases ==
                     Obj(<< <<Str("a"), I64(1)>> >>), Some(Obj(<< <<Str("a"), I64(3)>> >>)), "above_max", ""), <<"a">>) }
 
 \* ------------------------------------------------------------------ containers on the way
-ContainerKindsOnPath == {"list", "map", "imap", "emap", "object", "oneof", "struct"}
+ContainerKindsOnPath == {"list", "map", "imap", "emap", "object", "dobject", "oneof", "struct"}
 NB(c, mk(_)) == IF c.nbad.some THEN Some(mk(c.nbad.v)) ELSE None
 Around(kind, c) ==
     CASE kind = "list" ->       \* the faulty element is the second item: index 1
@@ -119,10 +119,11 @@ Around(kind, c) ==
                 mkn(x) == M("typed", << <<I64(1), c.ngood>>, <<I64(2), x>> >>)
             IN [c EXCEPT !.s = MapS(ks, c.s, None, None, FALSE), !.good = mk(c.good), !.bad = mk(c.bad),
                          !.ngood = mkn(c.ngood), !.nbad = NB(c, mkn), !.path = <<"2">> \o c.path]
-      [] kind = "object" ->     \* the property "x" of a map-based object
+      [] kind \in {"object", "dobject"} ->     \* the property "x" of a map-based object; dobject: x carries a display name
             LET mk(x) == M("any_any", << <<Str("b"), Str("a")>>, <<Str("x"), x>> >>)
                 mkn(x) == M("string_any", << <<Str("b"), Str("a")>>, <<Str("x"), x>> >>)
-            IN [c EXCEPT !.s = ObjectS("W", << Prop("b", StringS(None, None, None), FALSE), Prop("x", c.s, TRUE) >>, "map", FALSE),
+                px == IF kind = "dobject" THEN PropD("x", c.s, TRUE, "Network settings") ELSE Prop("x", c.s, TRUE)
+            IN [c EXCEPT !.s = ObjectS("W", << Prop("b", StringS(None, None, None), FALSE), px >>, "map", FALSE),
                          !.good = mk(c.good), !.bad = mk(c.bad), !.ngood = mkn(c.ngood), !.nbad = NB(c, mkn), !.path = <<"x">> \o c.path]
       [] kind = "oneof" ->      \* the property "x" of the member a one-of dispatches to (the one-of itself adds no segment)
             LET mk(x) == M("any_any", << <<Str("type"), Str("a")>>, <<Str("x"), x>> >>)
